@@ -229,6 +229,11 @@ def judge(case, impl_res, ans):
     if op == 'tcounts':
         if ok['nt'] != case['nt']:
             return 'MACHINERY: n_templates of the generated dataset'
+        for r in ok['res'] + ok['res_inmem']:
+            # theorem templateCounts_sum, on the real answers alone: the histogram conserves the cluster's spikes
+            if sum(r['counts']) != len(r['cluster_spikes']):
+                return ('SPEC: the per-cluster template histogram does not sum to the number of spikes of the cluster '
+                        '(%d vs %d)' % (sum(r['counts']), len(r['cluster_spikes'])))
         if ok['res'] != m:
             return 'SPEC: model query differs from the set-theoretic definition'
         if 'err' in ans.get('second', {}):
